@@ -246,7 +246,18 @@ pub fn classify_violations(pts: &[Vec<f64>], sp: &ScaledPoints, cells: &[Vec<usi
     } else if unexplained > 0 {
         "unexplained_local"
     } else if d >= 4 {
-        "d4_suppressed"
+        // The library's global (brute-force) verifier suppresses a violating (cell, vertex) pair only
+        // when the vertex is the apex of a facet-neighbour of the cell.  A decidable violation
+        // between cells that do not share a facet cannot be blamed on that suppression.
+        let adjacent_apex = |ci: usize, q: usize| -> bool {
+            let c = &cells[ci];
+            cells.iter().enumerate().any(|(cj, o)| cj != ci && o.contains(&q) && o.iter().filter(|x| c.contains(x)).count() == d)
+        };
+        if rep.decidable().iter().all(|v| adjacent_apex(v.cell, v.vertex)) {
+            "d4_suppressed"
+        } else {
+            "d4_nonadjacent"
+        }
     } else {
         "degenerate_flip"
     }
